@@ -34,4 +34,115 @@ mod native {
         assert!(!Extractor::is_confined(&std::path::PathBuf::from("../name").join("x")));
         assert!(Extractor::is_confined(&std::path::PathBuf::new().join("file.bin")));
     }
+
+    // ---- bounded second line for C03 / C04 on the REAL extract_files (the proof in unit EXTR is the first line; this decides changes
+    // that leave the Verus subset, which would otherwise end as "undecided")
+    fn sha1(d: &[u8]) -> [u8; 20] { let mut h = sha1_smol::Sha1::new(); h.update(d); h.digest().bytes() }
+    // a torrent over `content` cut into pieces of `pl` bytes; files = (path, length) in order; single = use the single-file layout
+    fn torrent_doc(name: &str, pl: usize, content: &[u8], files: &[(String, usize)], single: bool) -> Vec<u8> {
+        let mut d = b"d8:announce3:url4:infod".to_vec();
+        if single {
+            d.extend(format!("6:lengthi{}e", files[0].1).into_bytes());
+        } else {
+            d.extend_from_slice(b"5:filesl");
+            for (p, l) in files { d.extend(format!("d6:lengthi{}e4:path{}:{}e", l, p.len(), p).into_bytes()); }
+            d.extend_from_slice(b"e");
+        }
+        let n = (content.len() + pl - 1) / pl;
+        d.extend(format!("4:name{}:{}12:piece lengthi{}e6:pieces{}:", name.len(), name, pl, 20 * n).into_bytes());
+        for c in content.chunks(pl) { d.extend_from_slice(&sha1(c)); }
+        d.extend_from_slice(b"ee");
+        d
+    }
+    fn store_pieces(pl: usize, content: &[u8]) {
+        for c in content.chunks(pl) { std::fs::write(utils::hash_to_string(&sha1(c)) + ".piece", c).unwrap(); }
+    }
+    fn fresh_dir(tag: &str) -> std::path::PathBuf {
+        let base = std::path::PathBuf::from(format!("/verif/.cache/native-tmp/{}-{}", tag, std::process::id()));
+        let _ = std::fs::remove_dir_all(&base);
+        std::fs::create_dir_all(base.join("work/dl")).unwrap();
+        std::env::set_current_dir(base.join("work/dl")).unwrap();
+        base
+    }
+    fn files_outside(base: &std::path::Path, allowed: &std::path::Path, out: &mut Vec<String>) {
+        for e in std::fs::read_dir(base).unwrap() {
+            let e = e.unwrap().path();
+            if e.starts_with(allowed) { continue; }
+            if e.is_dir() { files_outside(&e, allowed, out); } else { out.push(e.display().to_string()); }
+        }
+    }
+
+    // C03, BOUNDED: every layout of 1..=3 files (thorough: 4) with lengths over {0,1,3,4,5,9} (total > 0) on pieces of 1, 4 or 5 bytes,
+    // multi-file and (for one file) single-file form: each listed file comes out with exactly its bytes and length
+    #[test]
+    fn native_c03_extract_small_layouts() {
+        let deep = std::env::var("RDEST_VERIF_TIER").map(|t| t == "thorough").unwrap_or(false);
+        let lens = [0usize, 1, 3, 4, 5, 9];
+        let (tx, _rx) = mpsc::channel(4);
+        let mut layouts = 0;
+        for pl in [1usize, 4, 5] {
+            for n in 1..=(if deep { 4usize } else { 3 }) {
+                for code in 0..lens.len().pow(n as u32) {
+                    let ls: Vec<usize> = (0..n).map(|i| lens[code / lens.len().pow(i as u32) % lens.len()]).collect();
+                    let total: usize = ls.iter().sum();
+                    if total == 0 { continue; }
+                    for single in [false, true] {
+                        if single && n != 1 { continue; }
+                        let base = fresh_dir("c03");
+                        let content: Vec<u8> = (0..total).map(|i| (i * 7 + 3) as u8).collect();
+                        let files: Vec<(String, usize)> = ls.iter().enumerate().map(|(i, l)| (format!("f{}.bin", i), *l)).collect();
+                        let m = Metainfo::from_bencode(&torrent_doc("t", pl, &content, &files, single)).expect("test torrent");
+                        store_pieces(pl, &content);
+                        let ex = Extractor::new(m, tx.clone());
+                        ex.extract_files().unwrap_or_else(|e| panic!("extraction failed for piece length {} file lengths {:?} single {}: {}", pl, ls, single, e));
+                        let mut off = 0;
+                        for (i, (p, l)) in files.iter().enumerate() {
+                            let path = if n > 1 { std::path::PathBuf::from("t").join(p) } else if single { std::path::PathBuf::from("t") } else { std::path::PathBuf::from(p) };
+                            let got = std::fs::read(&path).unwrap_or_else(|e| panic!("file {} ({:?}) of layout pl={} lens={:?} single={} was not written: {}", i, path, pl, ls, single, e));
+                            assert!(got == &content[off..off + l], "file {} of layout pl={} lens={:?} single={}: got {:?}, want {:?}", i, pl, ls, single, got, &content[off..off + l]);
+                            off += l;
+                        }
+                        std::env::set_current_dir("/").unwrap();
+                        let _ = std::fs::remove_dir_all(&base);
+                        layouts += 1;
+                    }
+                }
+            }
+        }
+        assert!(layouts > 700, "only {} layouts", layouts);
+    }
+
+    // C04, BOUNDED: hostile names / paths (parent components, absolute paths, backslashes, an existing parent directory): whatever
+    // extract_files answers, no file or directory appears outside the download directory
+    #[test]
+    fn native_c04_extract_hostile_paths() {
+        let (tx, _rx) = mpsc::channel(4);
+        let mut cases = 0;
+        let names = ["t", "..", "../up", "/verif/.cache/native-tmp/abs_name"];
+        for name in names {
+            for multi in [true, false] {
+                let base_probe = format!("/verif/.cache/native-tmp/c04-{}", std::process::id());
+                let paths: Vec<String> = vec!["a".into(), "../e1".into(), "../../e2".into(), "d/../../e3".into(), format!("{}/abs_evil", base_probe),
+                                              "..\\..\\e4".into(), "./ok".into(), "d/f".into(), "../dl/../e5".into()];
+                for p in paths.iter() {
+                    let base = fresh_dir("c04");
+                    let content = vec![1u8, 2, 3, 4, 5, 6];
+                    let files: Vec<(String, usize)> = if multi { vec![(p.clone(), 4), ("z".into(), 2)] } else { vec![(p.clone(), 6)] };
+                    let doc = torrent_doc(name, 4, &content, &files, false);
+                    if let Ok(m) = Metainfo::from_bencode(&doc) {
+                        store_pieces(4, &content);
+                        let _ = Extractor::new(m, tx.clone()).extract_files();
+                    }
+                    std::env::set_current_dir("/").unwrap();
+                    let mut out = vec![];
+                    files_outside(&base, &base.join("work/dl"), &mut out);
+                    assert!(out.is_empty(), "torrent name {:?} path {:?} (multi {}): created outside the download directory: {:?}", name, p, multi, out);
+                    assert!(!std::path::Path::new("/verif/.cache/native-tmp/abs_name").exists(), "absolute torrent name followed");
+                    let _ = std::fs::remove_dir_all(&base);
+                    cases += 1;
+                }
+            }
+        }
+        assert!(cases == 72);
+    }
 }
